@@ -48,7 +48,7 @@ def api_cases(r, n):
 
 
 # ------------------------------------------------------------------ histories
-def edit_source(r, src, state, force=None):
+def edit_source(r, src, state, force=None, force_on=None):
     """one burst of edits; every edit changes size or mtime of what it touches (the property's premise).
     state: rel -> (seed, size, mt_ns) of regular files"""
     log = []
@@ -69,7 +69,8 @@ def edit_source(r, src, state, force=None):
             state[rel] = (r.randrange(1 << 30), r.choice([0, 7, 5000, 70000]), fresh_mt(rel, None, r.randrange(3_000_000, 5_000_000) * NS, 0))
             log.append(("create", rel))
         elif kind in ("modsize", "samesize_later", "samesize_earlier"):
-            rel = r.choice(files)
+            pool = [f for f in files if f in force_on] if (force_on and kind == force and kind is kinds[-1]) else files
+            rel = r.choice(pool or files)
             if rel not in state:
                 continue
             seed, size, mt = state[rel]
@@ -161,6 +162,12 @@ AUX_SETS = [("cache", ["--use-cache=true"], []), ("db", ["--checksum", "--checks
             ("state", ["--resume=true"], ["--resume=false"])]
 
 
+def still_same(src, dst, rel):
+    """Caches.plan_resume after the repair: a path listed as completed is skipped only while the source file still has the recorded size and checksum"""
+    a, b = os.path.join(src, rel), os.path.join(dst, rel)
+    return os.path.isfile(a) and os.path.isfile(b) and os.path.getsize(a) == os.path.getsize(b) and world.sha(a) == world.sha(b)
+
+
 def strip(snap):
     return {k: v for k, v in snap.items() if not is_meta(k)}
 
@@ -191,7 +198,10 @@ def run_history(sc, seed, i, known, stats):
     history = []
     for k in range(1, steps + 1):
         # database histories always contain an older same-size version put back (the lookup key must be exact)
-        history.append(edit_source(r, src, state, force=("samesize_earlier" if ("db" in name or name == "all") and k >= 2 else None)))
+        synced = [p for p in state if not p.startswith("\0") and os.path.isfile(os.path.join(db, p))]
+        history.append(edit_source(r, src, state, force=("samesize_earlier" if ("db" in name or name == "all") and k >= 2 else
+                                                         (r.choice(["samesize_later", "modsize"]) if name == "state" and k >= 2 else None)),
+                                   force_on=synced if name == "state" else None))
         fl = {"j": 1}
         if use_delete:
             fl.update({"delete": 1, "thr": thr})
@@ -200,7 +210,8 @@ def run_history(sc, seed, i, known, stats):
         dmg = damage(r, db) if k > 1 and r.random() < 0.4 and i % 2 == 0 else []      # odd histories keep their files intact (hits need surviving rows)
         if name == "state" and k >= 2:
             # a VALID state file listing some current source paths as completed (public ResumeState API)
-            paths = [p for p in sorted(k for k in state if not k.startswith("\0")) if r.random() < 0.5][:4]
+            # paths an interrupted earlier run would have completed: files that are in the destination now
+            paths = [p for p in sorted(k for k in state if not k.startswith("\0")) if os.path.isfile(os.path.join(db, p))][:5]
             if paths:
                 vlib.run_sharded([os.path.join(vlib.BIN, "h_cache")], ["RS %s %d %s" % (db.encode().hex(), 1 if use_delete else 0, ",".join(p.encode().hex() for p in paths))], shards=1)
                 dmg.append(("valid-state", paths))
@@ -209,7 +220,7 @@ def run_history(sc, seed, i, known, stats):
         out = {}
         for which, dst, extra in (("plain", da, [a for a in plain if a != "--checksum"]), ("aux", db, [a for a in aux if a != "--checksum"])):
             ids = ew.Ids()
-            hidden = set(p for x in dmg if x[0] == "valid-state" for p in x[1]) if which == "aux" else set()
+            hidden = set(p for x in dmg if x[0] == "valid-state" for p in x[1] if still_same(src, db, p)) if which == "aux" else set()
             # Caches.plan_resume: paths the state file lists as completed are not planned; the deletion plan still sees them
             # (they reach Engine.run as kept-out entries)
             sel = (lambda sl: [t for t in sl if t[1] not in hidden]) if hidden else None
